@@ -4,6 +4,8 @@ pub mod c07;
 pub mod c10;
 pub mod c11;
 pub mod c18;
+pub mod c32;
+pub mod c40;
 pub mod docpool;
 
 use crate::report::Report;
@@ -44,6 +46,8 @@ pub fn run(prop: &str, args: &Args) -> i32 {
         "C10" => c10::run(args),
         "C11" => c11::run(args),
         "C18" => c18::run(args),
+        "C32" => c32::run(args),
+        "C40" => c40::run(args),
         _ => {
             eprintln!("unknown property {}", prop);
             2
